@@ -164,6 +164,7 @@ type StoreWorld struct {
 	keepLingering       bool
 	nextID, nextPayload int
 	batchFirstID        string
+	batchDoubt          int // size of the batch whose outcome is (still) in doubt
 }
 
 func openStore(cfg QConfig, clock *Clock, dbPath string) (queue.Store, func() error, error) {
@@ -358,6 +359,12 @@ func (w *StoreWorld) observe(opDesc string, refused bool) {
 			w.Model = cands[0]
 			for i := range first {
 				first[i].Detail += " [operation(s) in doubt; no admissible picture explains the listing]"
+				if w.batchDoubt > 1 {
+					// a batch that failed or whose answer was lost is neither
+					// completely there nor completely absent
+					first[i].Detail += fmt.Sprintf(" [a batch of %d is in doubt: all or nothing]", w.batchDoubt)
+					first[i].Props = append(first[i].Props, "C15")
+				}
 			}
 			w.add(first)
 		}
@@ -438,6 +445,9 @@ func (w *StoreWorld) settle(err error, check func() []Violation) {
 
 // Exec runs one step against store and model.
 func (w *StoreWorld) Exec(s Step) {
+	if s.Op != "enqueue_batch" {
+		w.batchDoubt = 0
+	}
 	w.step++
 	now := w.Clock.Peek()
 	r := w.Res
@@ -496,6 +506,7 @@ func (w *StoreWorld) Exec(s Step) {
 			}
 		}
 		w.assume = func(m *Model) { m.Enqueue(now, envs, true, len(envs), nil) }
+		w.batchDoubt = len(envs)
 		n, err := be.EnqueueBatch(envs)
 		w.loc = fmt.Sprintf("%s/enqueue_batch/%s/%s", w.Cfg.Backend, w.Model.Cfg.DropPolicy, errClass(err))
 		for _, e := range envs {
@@ -510,6 +521,7 @@ func (w *StoreWorld) Exec(s Step) {
 			r.probe("enqueue_batch.refused." + errClass(err))
 		}
 		w.observe("enqueue_batch", err != nil && !w.doubtful)
+		w.batchDoubt = 0
 	case "dequeue":
 		req := queue.DequeueRequest{Route: s.Route, Target: s.Target, Batch: s.Batch, LeaseTTL: s.TTL}
 		w.assume = func(m *Model) { m.DoubtDequeue(now, req) }
